@@ -36,6 +36,26 @@ def demo_cmd():
     c = re.sub(r"cd /tmp/seed[2345]?-C\d\d\s*&&\s*", "", c)
     c = c.replace("/tmp/seed5-%s" % meta["property"], wt).replace("/tmp/seed4-%s" % meta["property"], wt).replace("/tmp/seed3-%s" % meta["property"], wt).replace("/tmp/seed2-%s" % meta["property"], wt).replace("/tmp/seed-%s" % meta["property"], wt)
     c = c.strip()
+    if not re.search(r"\bcp\b|\bbash\b|\bsh\b", c):
+        # the command does not place the demonstration files itself: place them where meta.json / the file header says
+        cps = []
+        blob = json.dumps(meta)
+        for fn in sorted(os.listdir(seed)):
+            if not fn.endswith("_test.go"):
+                continue
+            dst = None
+            for txt in (blob, open(os.path.join(seed, fn), encoding="utf-8", errors="replace").read(1500)):
+                mm = re.search(re.escape(fn) + r"[^A-Za-z]{0,8}(?:->|:)?\s*\\?\"?[^\"]{0,40}?\b(?:to|at|in|into)\s+`?((?:control|component|config|pkg|common|cmd)[\w/.-]*)", txt) or \
+                     re.search(r"\b(?:[Cc]opy|[Pp]lace)[^\n\"]{0,60}?\b(?:to|at|in|into)\s+`?((?:control|component|config|pkg|common|cmd)[\w/.-]*)", txt)
+                if mm:
+                    dst = mm.group(1).rstrip(".")
+                    break
+            if dst:
+                if not dst.endswith("_test.go"):
+                    dst = dst.rstrip("/") + "/" + fn
+                cps.append("cp seed/%s/%s %s" % (name, fn, dst))
+        if cps:
+            c = " && ".join(cps) + " && ( " + c + " )"
     m = re.match(r"^(.*?)\s*;\s*(rm\s+[^;&|]+)$", c, flags=re.S)
     if m:  # keep the test's exit code, not rm's
         c = "( %s ); rc=$?; %s; exit $rc" % (m.group(1), m.group(2))
@@ -90,9 +110,9 @@ try:
     else:
         rc, out = sh("go1.26 build -tags dae_stub_ebpf ./control/ ./cmd/", cwd=wt)
         res["stub_build_ok"] = rc == 0
-        rc, out = sh("go test -mod=mod -vet=off -count=1 ./common/... ./component/... ./config/... ./pkg/... 2>&1 | grep -v '^ok\\|no test files' ", cwd=wt)
+        rc, out = sh("go1.26 test -mod=mod -vet=off -count=1 ./common/... ./component/... ./config/... ./pkg/... 2>&1 | grep -v '^ok\\|no test files' ", cwd=wt)
         res["pinned_suite_output_nonok_lines"] = out[-800:]
-        res["pinned_suite_pass"] = "FAIL" not in out
+        res["pinned_suite_pass"] = out.strip() == ""  # every line must be an "ok" (or "no test files") line
         if not skip_demo:
             rc, out = sh(dc, cwd=wt)
             res["demo_with_patch_rc"] = rc
